@@ -179,7 +179,7 @@ pub fn check_bytes(ctx: &mut Ctx, b: &[u8], watch: Option<&Watch>, origin: &'sta
 
 pub fn run(p: &Params) -> Outcome {
     let seed = p.seed;
-    let n = p.size(3_000_000, 400_000_000);
+    let n = p.size(8_000_000, 400_000_000);
     let per = n / p.workers as u64;
     let nums: Vec<u16> = gen::supported_numbers().to_vec();
     let nums2 = nums.clone();
